@@ -75,7 +75,7 @@ def main():
             tail, failed = run_tests(tree)
             res['tests'] = tail
             res['tests_failed'] = failed
-            res['tests_baseline_ok'] = (failed == ['test/test_groups.py::TestGroups::test_group_transform'])
+            res['tests_baseline_ok'] = set(failed) <= {'test/test_groups.py::TestGroups::test_group_transform'}
             rc1, out1 = run_demo(tree, demo)
             res['demo_mutated_exit'] = rc1
             res['demo_mutated_out'] = out1[-600:]
